@@ -142,7 +142,7 @@ def check(run):
     imm_range = gen["ranges"]["imm"]
     pcs = [0, 0x1000, 0x7FFFF000, 0x80000000, 0xFFFFF800, 0x7FFFFFFFFFFFF000, 0xFFFFFFFFFFFFF000, rng.next() & ~1]
     stats = {"literal": 0, "runtime": 0, "label": 0, "hi_lo_pair": 0, "accepted": 0, "rejected": 0, "executions": 0, "entries": len(items), "by_mnemonic": {}}
-    nrand = 400 if thorough else 60
+    nrand = 2000 if thorough else 60
 
     # ---------------------------------------------------------------- plan
     plan = []          # (it, xlen, v, source)
